@@ -9,3 +9,4 @@ mod oracle;
 mod proposal;
 mod rollupdata;
 mod validators;
+mod wire;
